@@ -98,21 +98,21 @@ fn render_inner(st: &Stage, idx: usize) -> String {
     let v = format!("l{idx}");
     match (&st.role, &st.body) {
         (Role::Emit { n, tag, pad }, Body::Builtin) => format!("simseq {n} {tag} {pad}"),
-        (Role::Emit { n, tag, pad }, Body::External) => format!("xseq {n} {tag} {pad}"),
-        (Role::Copy { buf }, Body::External) => format!("xcat {buf}"),
-        (Role::Head { k, buf }, Body::External) => format!("xhead {k} {buf}"),
+        (Role::Emit { n, tag, pad }, Body::External) => format!("xseq {n} {tag} {pad} @{idx}"),
+        (Role::Copy { buf }, Body::External) => format!("xcat {buf} @{idx}"),
+        (Role::Head { k, buf }, Body::External) => format!("xhead {k} {buf} @{idx}"),
         (Role::Exit { status, drain }, Body::External) if *status > 128 => {
             if *drain {
-                format!("xsig {} drain", status - 128)
+                format!("xsig {} drain @{idx}", status - 128)
             } else {
-                format!("xsig {}", status - 128)
+                format!("xsig {} nodrain @{idx}", status - 128)
             }
         }
         (Role::Exit { status, drain }, Body::External) => {
             if *drain {
-                format!("xexit {status} drain")
+                format!("xexit {status} drain @{idx}")
             } else {
-                format!("xexit {status}")
+                format!("xexit {status} nodrain @{idx}")
             }
         }
         (Role::Count, Body::External) => format!("c{idx}=0; while IFS= read -r {v}; do c{idx}=$((c{idx}+1)); done; echo \"count=$c{idx}\""),
@@ -701,6 +701,25 @@ pub fn judge(case: &Case) -> Verdict {
         if ps.len() != case.stages.len() {
             v.violation = Some(viol("C11/status/pipestatus-length", format!("PIPESTATUS={ps:?} for {} stages; script={script:?}", case.stages.len()), None));
             return v;
+        }
+        // an external stage's status is known exactly: the simulator saw how the process ended
+        for (i, st) in case.stages.iter().enumerate() {
+            let plain_external = st.body == Body::External && st.wrapper == Wrapper::None && !is_compound_text(st);
+            if !plain_external {
+                continue;
+            }
+            if let Some((_, raw)) = r.proc_exits.iter().find(|(t, _)| *t == format!("@{i}")) {
+                let want: u8 = if raw & 0x7f != 0 { 128 + (raw & 0x7f) as u8 } else { ((raw >> 8) & 0xff) as u8 };
+                if ps[i] != want {
+                    v.violation = Some(viol(
+                        "C11/status/external-stage",
+                        format!("PIPESTATUS[{i}]={}, but the process ended with raw wait status {raw} (expected {want}); all={ps:?}; script={script:?}", ps[i]),
+                        None,
+                    ));
+                    return v;
+                }
+                v.stats.probe("external_stage_status_checked_exactly");
+            }
         }
         for (i, s) in ps.iter().enumerate() {
             if !m.allowed[i].contains(s) {
